@@ -670,11 +670,11 @@ def exc_id(e, excs):
     return -1
 
 
-def observe_call_application(script, catch):
+def observe_call_application(script, catch, req=None):
     from webob import Request
     excs, log = make_exceptions(), Log()
     app = make_app(script, excs, log)
-    req = Request.blank("/")
+    req = req if req is not None else Request.blank("/")
     try:
         res = req.call_application(app, catch_exc_info=catch)
     except IndexError:
@@ -697,11 +697,11 @@ def observe_call_application(script, catch):
     return ["returned", status, [list(p) for p in headers], chunks, exc, closed, own, dx]
 
 
-def observe_send(script, catch):
+def observe_send(script, catch, req=None):
     from webob import Request
     excs, log = make_exceptions(), Log()
     app = make_app(script, excs, log)
-    req = Request.blank("/")
+    req = req if req is not None else Request.blank("/")
     try:
         resp = req.get_response(app, catch_exc_info=catch)
         status, hl = resp.status, [list(p) for p in resp.headerlist]
@@ -749,12 +749,12 @@ def lazy_shape(script):
     return started and not wrote and any(i[0] == "ev" for i in script["items"])
 
 
-def call_application_oracle(script, catch, via):
-    """None or (key, message).  via: "call_application" | "get_response"."""
+def call_application_oracle(script, catch, via, req=None):
+    """None or (key, message).  via: "call_application" | "get_response".  req: an existing Request to reuse."""
     from webob import Request
     excs, log = make_exceptions(), Log()
     app = make_app(script, excs, log)
-    req = Request.blank("/sub?x=1")
+    req = req if req is not None else Request.blank("/sub?x=1")
     ref = reference_server(script, catch)
     has_close = script["shape"] == "iter" and script["close"]
     webob_drains = True          # is webob the one iterating when an exception comes out?
@@ -914,6 +914,342 @@ def unjscript(d):
             "items": [("yield", bytes.fromhex(i[1])) if i[0] == "yield" else ("ev", uev(i[1])) for i in d["items"]]}
 
 
+# =========================================================================== histories on ONE long-lived object
+SUB_BODY = b"a=1&b=\xff\r\n\r\nrest"
+
+
+def new_sub_request():
+    from webob import Request
+    r = Request.blank("/sub/p%C3%A9?x=1", method="POST", headers={"X-Probe": "a: b, c"})
+    r.body = SUB_BODY
+    return r
+
+
+def echo_app(environ, start_response):
+    """reads the request body it is given and sends it back"""
+    if environ.get("CONTENT_LENGTH") is None and environ.get("wsgi.input_terminated"):
+        data = environ["wsgi.input"].read()
+    else:
+        data = environ["wsgi.input"].read(int(environ.get("CONTENT_LENGTH") or 0))
+    start_response("200 OK", [("Content-Length", str(len(data)))])
+    return [data]
+
+
+def rand_sub_history(rng, n):
+    steps = []
+    for _ in range(n):
+        t = rng.random()
+        if t < 0.6:
+            s = rand_script(rng, lazy_ok=False)
+            steps.append(["script", jscript(s), rng.random() < 0.5, rng.choice(["call_application", "get_response"])])
+        elif t < 0.75:
+            steps.append(["echo", rng.choice(["call_application", "get_response"])])
+        elif t < 0.85:
+            steps.append(["as_bytes", rng.choice([False, True, 3, 500])])
+        elif t < 0.93:
+            steps.append(["body"])
+        else:
+            steps.append(["response-app", rng.choice(["GET", "HEAD"])])
+    return steps
+
+
+def sub_history_step(req, step, resp_app, exp_bytes):
+    from webob import Request
+    kind = step[0]
+    if kind == "script":
+        return call_application_oracle(unjscript(step[1]), step[2], step[3], req=req)
+    if kind == "echo":
+        if step[1] == "call_application":
+            st, h, it = req.call_application(echo_app)
+            got = b"".join(it)
+        else:
+            got = req.get_response(echo_app).body
+        if got != SUB_BODY:
+            return ("call_application:request-body-not-rewound", "the application read %r from wsgi.input, the request body is %r" % (got, SUB_BODY))
+        return None
+    if kind == "as_bytes":
+        sk = step[1]
+        got = req.as_bytes(skip_body=sk)
+        head = exp_bytes.split(b"\r\n\r\n", 1)[0]
+        want = head if sk is True else (exp_bytes if sk is False or len(SUB_BODY) <= sk else
+                                        head + b"\r\n\r\n" + ("<body skipped (len=%d)>" % len(SUB_BODY)).encode())
+        if got != want:
+            return ("request-roundtrip:as_bytes-form", "as_bytes(skip_body=%r) is %r, expected %r" % (sk, got, want))
+        return None
+    if kind == "body":
+        if req.body != SUB_BODY:
+            return ("request-roundtrip:body", "req.body is %r, expected %r" % (req.body, SUB_BODY))
+        return None
+    if kind == "response-app":
+        # a long-lived Response object used as the WSGI application, for GET and HEAD alternately
+        r2 = req.copy()
+        r2.method = step[1]
+        got = r2.get_response(resp_app)
+        want = b"" if step[1] == "HEAD" else b"long-lived body"
+        if got.status != "200 OK" or got.body != want or got.headers.get("X-Long") != "lived":
+            return ("call_application:response-app", "%s through a long-lived Response app gave %r %r" % (step[1], got.status, got.body))
+        return None
+    raise ValueError(kind)
+
+
+def sub_request_history_oracle(steps):
+    """ONE Request object (and one Response-as-app) serves every step; each answer must be the one a
+    brand-new request gives, and the request itself must be unchanged at the end."""
+    from webob import Response
+    req = new_sub_request()
+    exp_bytes = new_sub_request().as_bytes()
+    obs0 = observe_req(new_sub_request())
+    resp_app = Response(body=b"long-lived body", headerlist=[("X-Long", "lived"), ("Content-Type", "text/plain")])
+    for i, step in enumerate(steps):
+        try:
+            res = sub_history_step(req, step, resp_app, exp_bytes)
+        except Exception as e:  # noqa
+            res = ("request-reuse:raises", "%s: %s" % (exc_name(e), e))
+        if res:
+            key = res[0]
+            if key != K_LAZY:
+                try:
+                    fresh = sub_history_step(new_sub_request(), step, Response(body=b"long-lived body", headerlist=[
+                        ("X-Long", "lived"), ("Content-Type", "text/plain")]), exp_bytes)
+                except Exception:  # noqa
+                    fresh = ("x", "")
+                if fresh is None:
+                    key = "request-reuse:" + key.split(":", 1)[-1]
+            return (key, "step %d of a history on ONE Request object (%s): %s" % (i, step[0], res[1]))
+    obs = observe_req(req)
+    obs0[3] = sorted(obs0[3])
+    obs[3] = sorted(obs[3])
+    if obs != obs0:
+        return ("request-reuse:state-changed", "after the history the request shows %r, a new one %r" % (obs, obs0))
+    if req.as_bytes() != exp_bytes:
+        return ("request-reuse:state-changed", "after the history as_bytes() is %r, expected %r" % (req.as_bytes(), exp_bytes))
+    return None
+
+
+REQ_OPS = ["as_bytes", "as_bytes", "as_bytes_skip", "as_bytes_k", "as_text", "str", "body", "partial", "copy", "from_bytes", "headers",
+           "echo", "body_file", "make_seekable", "copy_body"]
+
+
+def request_reuse_oracle(E, ops):
+    """as_bytes()/as_text() repeatedly on ONE request, interleaved with every way of reading the body"""
+    from webob import Request
+    body = E["input"]
+    exp = build_request(E).as_bytes()
+    h0 = {k: v for k, v in build_request(E).headers.items() if k != "Content-Length"}
+    # reading or copying the body may add a truthful Content-Length (also "0" for an empty body): both forms are the
+    # same request for this property
+    r_cl = build_request(E)
+    r_cl.copy_body()
+    exps = {exp, r_cl.as_bytes()}
+    heads = {x.partition(b"\r\n\r\n")[0] for x in exps}
+    if not any(k == "CONTENT_LENGTH" for k, _ in E["hdrs"]):
+        heads |= {b"\r\n".join(l for l in h.split(b"\r\n") if not l.startswith(b"Content-Length:")) for h in set(heads)}
+    try:
+        texts = {x.decode("utf-8") for x in exps}
+    except UnicodeDecodeError:
+        texts = None
+    req = build_request(E)
+    for i, op in enumerate(ops):
+        msg = None
+        try:
+            if op == "as_bytes":
+                got = req.as_bytes()
+                msg = None if got in exps else "as_bytes() is %r, a new request gives %r" % (got, exp)
+            elif op == "as_bytes_skip":
+                got = req.as_bytes(skip_body=True)
+                msg = None if got in heads else "as_bytes(skip_body=True) is %r, expected one of %r" % (got, sorted(heads))
+            elif op == "as_bytes_k":
+                got = req.as_bytes(skip_body=max(2, len(body)))
+                msg = None if got in exps else "as_bytes(skip_body=len(body)) is %r, expected %r" % (got, exp)
+            elif op in ("as_text", "str"):
+                if texts is not None:
+                    got = req.as_text() if op == "as_text" else str(req)
+                    msg = None if got in texts else "%s is %r, expected %r" % (op, got, exp)
+            elif op == "body":
+                msg = None if req.body == body else "req.body is %r, expected %r" % (req.body, body)
+            elif op == "partial":
+                req.make_body_seekable()
+                k = len(body) // 2
+                got = req.body_file.read(k)
+                msg = None if got == body[:k] else "body_file.read(%d) is %r, expected %r" % (k, got, body[:k])
+            elif op == "body_file":
+                req.make_body_seekable()
+                got = req.body_file.read()
+                msg = None if got == body else "body_file.read() is %r, expected %r" % (got, body)
+            elif op == "make_seekable":
+                req.make_body_seekable()
+            elif op == "copy_body":
+                req.copy_body()
+            elif op == "copy":
+                c = req.copy()
+                if c.as_bytes() not in exps or c.body != body:
+                    msg = "a copy() serialises to %r with body %r" % (c.as_bytes(), c.body)
+            elif op == "from_bytes":
+                r2 = Request.from_bytes(req.as_bytes())
+                msg = None if r2.body == body and r2.url == req.url else "from_bytes(as_bytes()) gives %r %r" % (r2.url, r2.body)
+            elif op == "headers":
+                h = {k: v for k, v in req.headers.items() if k != "Content-Length"}
+                cl = req.headers.get("Content-Length")
+                if h != h0 or (cl is not None and body and cl != str(len(body))):
+                    msg = "headers are %r (Content-Length %r), expected %r" % (h, cl, h0)
+            elif op == "echo":
+                if body:
+                    # (an application that consumes a NON-seekable wsgi.input leaves nothing to re-read: the caller
+                    # that wants to use the request again makes the body seekable first)
+                    req.make_body_seekable()
+                    st, hh, it = req.call_application(echo_app)
+                    got = b"".join(it)
+                    msg = None if got == body else "an application read %r from wsgi.input, the body is %r" % (got, body)
+        except Exception as e:  # noqa
+            msg = "%s raised %s: %s" % (op, exc_name(e), e)
+        if msg:
+            return ("request-reuse:" + op, "step %d (%s) after %r on ONE request: %s" % (i, op, ops[:i], msg))
+    return None
+
+
+RESP_OPS = ["str", "str", "str_skip", "body", "text", "from_file", "from_file_bytes", "call", "call_head", "copy", "headerlist", "app_iter"]
+
+
+def response_reuse_oracle(status, hl, body, ops):
+    """ONE Response serialised with __str__ / read back with from_file repeatedly, interleaved with reads"""
+    from webob import Request, Response
+    mk = lambda: Response(status=status, headerlist=list(hl), app_iter=[body])  # noqa
+    exp = str(mk())
+    head = exp.split("\r\n\r\n", 1)[0] if body else exp
+    resp = mk()
+    for i, op in enumerate(ops):
+        msg = None
+        try:
+            if op == "str":
+                got = str(resp)
+                msg = None if got == exp else "str(resp) is %r, a new response gives %r" % (got, exp)
+            elif op == "str_skip":
+                got = resp.__str__(skip_body=True)
+                msg = None if got == head else "__str__(skip_body=True) is %r, expected %r" % (got, head)
+            elif op == "body":
+                msg = None if resp.body == body else "body is %r" % (resp.body,)
+            elif op == "text":
+                msg = None if resp.text == body.decode("utf-8") else "text is %r" % (resp.text,)
+            elif op in ("from_file", "from_file_bytes"):
+                s1 = str(resp)
+                if op == "from_file":
+                    f = io.StringIO(s1 + "TRAILING" if False else s1)
+                    r2 = Response.from_file(f)
+                    res = check_resp(r2, f.read(), status, hl, body, "", "from_file(StringIO(str)) again", True)
+                elif s1.isascii():
+                    f = io.BytesIO(s1.encode("ascii") + (b"NEXT" if body else b""))
+                    r2 = Response.from_file(f)
+                    res = check_resp(r2, f.read(), status, hl, body, b"NEXT" if body else b"", "from_file(BytesIO(str)) again")
+                else:
+                    res = None
+                msg = res[1] if res else None
+            elif op in ("call", "call_head"):
+                r = Request.blank("/", method="HEAD" if op == "call_head" else "GET")
+                st, hh, it = r.call_application(resp)
+                got = b"".join(it)
+                want = b"" if op == "call_head" else body
+                if st != status or got != want:
+                    msg = "used as a WSGI app (%s) it sent %r %r" % (r.method, st, got)
+            elif op == "copy":
+                c = resp.copy()
+                msg = None if str(c) == exp and c.body == body else "a copy() prints %r" % str(c)
+            elif op == "headerlist":
+                msg = None if list(resp.headerlist) == list(hl) else "headerlist is %r" % (resp.headerlist,)
+            elif op == "app_iter":
+                got = b"".join(resp.app_iter)
+                msg = None if got == body else "app_iter yields %r" % (got,)
+        except Exception as e:  # noqa
+            msg = "%s raised %s: %s" % (op, exc_name(e), e)
+        if msg:
+            return ("response-reuse:" + op, "step %d (%s) after %r on ONE response: %s" % (i, op, ops[:i], msg))
+    if resp.status != status or list(resp.headerlist) != list(hl) or resp.body != body:
+        return ("response-reuse:state-changed", "after %r the response shows %r %r %r" % (ops, resp.status, resp.headerlist, resp.body))
+    return None
+
+
+def pipelined_oracle(msgs, is_resp):
+    """several serialised messages in ONE file object: each from_file call reads exactly one"""
+    from webob import Request, Response
+    data = b"".join(m[0] for m in msgs)
+    f = io.BytesIO(data)
+    for i, (wire, check) in enumerate(msgs):
+        try:
+            obj = (Response if is_resp else Request).from_file(f)
+        except Exception as e:  # noqa
+            return ("pipelined:from_file-raises", "message %d of %d in one file: from_file raised %s: %s" % (i, len(msgs), exc_name(e), e))
+        msg = check(obj)
+        if msg:
+            return ("pipelined:" + ("response" if is_resp else "request"), "message %d of %d read from ONE file object: %s" % (i, len(msgs), msg))
+    rest = f.read()
+    if rest:
+        return ("pipelined:consumed", "%r left in the file after reading all messages" % rest)
+    return None
+
+
+def order_items(rng, n):
+    """(kind, json-able input, thunk) whose results must not depend on what ran before in this process"""
+    items = []
+    for _ in range(n):
+        t = rng.randrange(4)
+        if t == 0:
+            E = rand_env(rng, wellformed=True)
+            items.append(("as_bytes", jE(E), lambda E=E: [build_request(E).as_bytes(), observe_req(build_request(E))]))
+        elif t == 1:
+            E = rand_env(rng, wellformed=True)
+            b = mutate_head(rng, build_request(E).as_bytes()) if rng.random() < 0.5 else build_request(E).as_bytes()
+            items.append(("from_bytes", b.hex(), lambda b=b: observe_from_bytes(b)))
+        elif t == 2:
+            st, hl, body = rand_resp(rng)
+            w = resp_wire(st, hl, body)
+            items.append(("resp_from_file", w.hex(), lambda w=w: observe_resp_from_file(False, w)))
+        else:
+            sc = rand_script(rng)
+            catch = rng.random() < 0.5
+            items.append(("call_application", jscript(sc), lambda sc=sc, catch=catch: observe_call_application(sc, catch)))
+    return items
+
+
+def order_independence_oracle(rng, n):
+    items = order_items(rng, n)
+    first = [fw.jsonable(f()) for _, _, f in items]
+    order = list(range(n))
+    rng.shuffle(order)
+    for i in order + order[::-1]:
+        again = fw.jsonable(items[i][2]())
+        if again != first[i]:
+            return ("order-dependence:" + items[i][0], "%s on %r gave %r first and %r after other calls in this process" % (
+                items[i][0], items[i][1], first[i], again)), {"kind": "order", "what": items[i][0]}
+    return None, None
+
+
+def chistory(steps):
+    """[(is_send, catch, script)] as a Coq list"""
+    return clist(cpair(cbool(snd), cpair(cbool(c), capp(sc))) for snd, c, sc in steps)
+
+
+def observe_call_history(steps):
+    from webob import Request
+    req = Request.blank("/")
+    out = []
+    for snd, c, sc in steps:
+        obs = (observe_send if snd else observe_call_application)(sc, c, req=req)
+        if sc["shape"] == "generator":
+            obs = mask_closed(obs, sc)
+        out.append(obs)
+    return out
+
+
+def observe_as_bytes_history(sks, E):
+    r = build_request(E)
+    out = []
+    for sk in sks:
+        try:
+            out.append([r.as_bytes(skip_body=sk), [[k, v] for k, v in r.headers.items()]])
+        except Exception as e:  # noqa
+            out.append(Err(exc_name(e)))
+    return out
+
+
 # =========================================================================== streams for the parser correspondences
 import re  # noqa
 
@@ -1054,13 +1390,26 @@ def run_case(case):
         if case.get("textual"):
             return rt_response_str_oracle(st, hl, body)
         return None
+    if kind == "sub-history":
+        return sub_request_history_oracle(case["steps"])
+    if kind == "request-reuse":
+        if not case.get("wellformed", True):
+            return None
+        return request_reuse_oracle(unjE(case["env"]), case["ops"])
+    if kind == "response-reuse":
+        return response_reuse_oracle(case["status"], [tuple(p) for p in case["headers"]], bytes.fromhex(case["body"]), case["ops"])
+    if kind == "pipelined-response":
+        return pipelined_responses([(m["status"], [tuple(p) for p in m["headers"]], bytes.fromhex(m["body"])) for m in case["messages"]])
+    if kind == "pipelined-request":
+        return pipelined_requests([unjE(e) for e in case["envs"]])
     if kind == "script":
         s = unjscript(case["script"])
-        for catch in ([case["catch"]] if "catch" in case else [False, True]):
-            for via in ([case["via"]] if "via" in case else ["call_application", "get_response"]):
-                r = call_application_oracle(s, catch, via)
-                if r:
-                    return r
+        for _again in (1, 2):          # twice in one process: state leaking between calls shows on the second
+            for catch in ([case["catch"]] if "catch" in case else [False, True]):
+                for via in ([case["via"]] if "via" in case else ["call_application", "get_response"]):
+                    r = call_application_oracle(s, catch, via)
+                    if r:
+                        return r
         return None
     return None
 
@@ -1184,6 +1533,34 @@ def run(ctx):
     for i in ctx.corr("send", IMPORTS, "c_send", scases, in_type="(bool * app)")[:8]:
         follow_up(ctx, "send", scases[i][2])
 
+    # ------------------------------------------------------------------ correspondence: histories on one object
+    rng = ctx.sub_rng("corr-history")
+    cases = []
+    for _ in range(ctx.scale(120, 1200)):
+        steps = []
+        for _ in range(rng.randrange(2, 6)):
+            sc = rand_script(rng)
+            if sc["shape"] == "generator":
+                sc["close"] = True
+            snd = rng.random() < 0.4
+            if snd and lazy_shape(sc) and declares_length(sc):
+                snd = False
+            steps.append((snd, rng.random() < 0.5, sc))
+        cases.append((chistory(steps), observe_call_history(steps),
+                      {"kind": "sub-history", "steps": [["script", jscript(sc), c, "get_response" if snd else "call_application"]
+                                                        for snd, c, sc in steps]}))
+    for i in ctx.corr("call_history", IMPORTS, "c_call_history", cases, in_type="(list (bool * (bool * app)))")[:5]:
+        follow_up(ctx, "call_history", cases[i][2])
+    cases = []
+    for _ in range(ctx.scale(150, 1500)):
+        E = rand_env(rng, wellformed=rng.random() < 0.5)
+        sks = [rng.choice([False, False, True, 2, 5, 50]) for _ in range(rng.randrange(2, 5))]
+        cases.append((cpair(clist(cskip(k) for k in sks), cenv(E)), observe_as_bytes_history(sks, E),
+                      {"kind": "request-reuse", "env": jE(E), "ops": ["as_bytes" if k is False else "as_bytes_skip" for k in sks],
+                       "wellformed": False}))
+    for i in ctx.corr("as_bytes_history", IMPORTS, "c_as_bytes_history", cases, in_type="(list skip * env)")[:5]:
+        follow_up(ctx, "as_bytes_history", cases[i][2])
+
     # a correspondence that could not be evaluated at all must not hide behind other violations
     for b in ctx.broken:
         if b.startswith("correspondence") and "could not be evaluated" in b:
@@ -1194,6 +1571,7 @@ def run(ctx):
     oracle_requests(ctx)
     oracle_responses(ctx)
     oracle_scripts(ctx)
+    oracle_histories(ctx)
 
     ctx.extra["rule"] = (
         "correspondence: requests are built from generated environs (methods incl. extension tokens, script/path octets incl. "
@@ -1452,13 +1830,73 @@ def oracle_scripts(ctx):
     ctx.oracle_count("sub-request-exhaustive", cnt, cnt)
 
 
+def pipelined_responses(rs):
+    def mk(st, hl, body):
+        return lambda r2: (lambda m: m[1] if m else None)(check_resp(r2, b"", st, hl, body, b"", "from_file"))
+    return pipelined_oracle([(resp_wire(st, hl, body), mk(st, hl, body)) for st, hl, body in rs], True)
+
+
+def pipelined_requests(envs):
+    msgs = []
+    for E in envs:
+        req = build_request(E)
+        url1, h1 = req.url, dict(req.headers)
+        b = req.as_bytes()
+        msgs.append((b, lambda r2, E=E, req=req, url1=url1, h1=h1: (lambda m: m[1] if m else None)(
+            compare_requests(E, req, r2, url1, h1, E["input"], "from_file"))))
+    return pipelined_oracle(msgs, False)
+
+
+def oracle_histories(ctx):
+    """ONE long-lived object serving several calls (the statement treats every call as a function of its inputs)"""
+    rng = ctx.sub_rng("oracle-history")
+    n = ctx.scale(400, 6000)
+    for _ in range(n):
+        steps = rand_sub_history(rng, rng.randrange(3, 9))
+        report(ctx, sub_request_history_oracle(steps), {"kind": "sub-history", "steps": steps}, "sub-request-history")
+    ctx.oracle_count("sub-request-history", n, n)
+    n = ctx.scale(500, 8000)
+    for _ in range(n):
+        E = rand_env(rng, wellformed=True)
+        ops = [rng.choice(REQ_OPS) for _ in range(rng.randrange(3, 9))]
+        report(ctx, request_reuse_oracle(E, ops), {"kind": "request-reuse", "env": jE(E), "ops": ops}, "request-reuse")
+    ctx.oracle_count("request-reuse", n, n)
+    for _ in range(n):
+        st, hl, body = rand_resp(rng, latin=rng.random() < 0.5, textual=True)
+        ops = [rng.choice(RESP_OPS) for _ in range(rng.randrange(3, 9))]
+        report(ctx, response_reuse_oracle(st, hl, body, ops), dict(jresp(st, hl, body), kind="response-reuse", ops=ops), "response-reuse")
+    ctx.oracle_count("response-reuse", n, n)
+    m = ctx.scale(300, 4000)
+    for _ in range(m):
+        rs = [rand_resp(rng) for _ in range(rng.randrange(2, 5))]
+        report(ctx, pipelined_responses(rs), {"kind": "pipelined-response", "messages": [
+            {"status": a, "headers": [list(p) for p in b], "body": c.hex()} for a, b, c in rs]}, "pipelined")
+        envs = []
+        for _ in range(rng.randrange(2, 4)):
+            E = rand_env(rng, wellformed=True)
+            while not E["input"]:
+                E = rand_env(rng, wellformed=True)        # a request without a body does not end with a line terminator
+            envs.append(E)
+        report(ctx, pipelined_requests(envs), {"kind": "pipelined-request", "envs": [jE(E) for E in envs]}, "pipelined")
+    ctx.oracle_count("pipelined", 2 * m, 2 * m)
+    k = ctx.scale(40, 300)
+    for _ in range(k):
+        res, case = order_independence_oracle(rng, 12)
+        if res:
+            ctx.fail(res[0], res[1], case, True, "order-independence")
+    ctx.oracle_count("order-independence", k * 12 * 3, k * 12)
+
+
 def replay(ctx, path):
     data = json.load(open(path))
     case = data["case"]
     kind = case.get("kind") if isinstance(case, dict) else None
     if kind == "api":
         res = api_request_case(case)
-    elif kind in ("request", "response", "script"):
+    elif kind == "order":
+        res, _ = order_independence_oracle(fw.Ctx("C20", "quick", data.get("seed", 0)).sub_rng("oracle-history"), 12)
+    elif kind in ("request", "response", "script", "sub-history", "request-reuse", "response-reuse", "pipelined-response",
+                  "pipelined-request"):
         if kind == "request":
             case = dict(case, wellformed=True)
         res = run_case(case)
